@@ -3,6 +3,7 @@ package main
 import (
 	"fmt"
 	"math/rand"
+	"sync"
 	"time"
 
 	. "vcheck/lib"
@@ -138,7 +139,138 @@ func runC20(c *Check, rng *rand.Rand) {
 		}
 		env.Close()
 	}
+	c20special(c, rng)
 	c.MinEvals = 6
+}
+
+// c20special: (1) reads alternating strictly between two masters, (2) a proxy whose
+// configured seed servers are replicas, (3) a replica that is loading when first
+// discovered and becomes healthy later. Replicas behave like real ones: a read on a
+// connection that has not sent READONLY is answered with MOVED to the master.
+func c20special(c *Check, rng *rand.Rand) {
+	masters, r := 3, 2
+	var loadingNode *Node
+	env, err := NewEnv(EnvOpt{Masters: masters, Replicas: r, Topo: func(cl *Cluster) *Topo {
+		t := EvenTopo(cl, masters, r)
+		t.Order = rng.Perm(len(t.Nodes))
+		loadingNode = t.Replicas(t.Nodes[2].ID)[1].Node
+		loadingNode.Loading = true
+		return t
+	}, Cfg: ProxyCfg{Servers: []string{"replica-seeds"}}, SeedReplicas: true})
+	must(err, "start env")
+	defer env.Close()
+	masterOf := map[*Node]*TNode{}
+	for _, tn := range env.T.Nodes {
+		if !tn.Master {
+			for _, m := range env.T.Nodes {
+				if m.ID == tn.MasterID {
+					masterOf[tn.Node] = m
+				}
+			}
+		}
+	}
+	var mu sync.Mutex
+	served := map[*Node]int{}
+	env.Cl.SetHandler(func(b *BReq) Action {
+		if m := masterOf[b.Node]; m != nil {
+			b.Conn.Lock()
+			ro := b.Conn.ReadOnly
+			b.Conn.Unlock()
+			if !ro {
+				return Action{Reply: ErrReply(fmt.Sprintf("MOVED %d %s", KeySlot([]byte(FirstKey(b))), m.Addr))}
+			}
+		}
+		if CmdTable[b.Cmd].Role == RoleRead {
+			mu.Lock()
+			served[b.Node]++
+			mu.Unlock()
+		}
+		return Action{Reply: ValueReply(b)}
+	})
+	run := func(label string, ms []*TNode, n int, must2 map[*Node]bool) {
+		mu.Lock()
+		served = map[*Node]int{}
+		mu.Unlock()
+		cl, err := env.Dial()
+		must(err, "dial")
+		sent := 0
+		for i := 0; i < n; i++ {
+			for _, m := range ms {
+				slot := m.Slots[0][0] + rng.Intn(m.Slots[0][1]-m.Slots[0][0]+1)
+				cl.Send(Req("GET", Key(slot, newToken("al"))))
+				sent++
+			}
+			if i%50 == 49 {
+				cl.WaitReplies(sent, 10*time.Second)
+			}
+		}
+		cl.WaitReplies(sent, 20*time.Second)
+		cl.Close()
+		c.Eval(1)
+		c.Distinct("special/" + label)
+		dist := map[string]int{}
+		starved := 0
+		mu.Lock()
+		for _, m := range ms {
+			for _, rep := range env.T.Replicas(m.ID) {
+				dist[rep.Addr] = served[rep.Node]
+				if must2 != nil && !must2[rep.Node] {
+					continue
+				}
+				if served[rep.Node] == 0 {
+					starved++
+				}
+			}
+		}
+		mu.Unlock()
+		wit := map[string]interface{}{"scenario": label, "reads_per_master": n, "reads_served_per_replica": dist}
+		if starved > 0 {
+			c.Violate(Violation{Class: "healthy-replica-never-used", Shape: label, Detail: fmt.Sprintf("%s: %d healthy replicas served none of the reads: %v", label, starved, dist), Witness: wit})
+		} else {
+			c.Count("runs_with_all_healthy_replicas_used", 1)
+		}
+		c.Sample(wit)
+	}
+	healthy := map[*Node]bool{}
+	for _, tn := range env.T.Nodes {
+		if !tn.Master && tn.Node != loadingNode {
+			healthy[tn.Node] = true
+		}
+	}
+	// (2) seeds are replicas: every healthy replica must really serve reads
+	run("replica-seed-servers", env.T.Nodes[:3], 300, healthy)
+	// (1) strict alternation between two masters (and between three)
+	run("alternating-two-masters", env.T.Nodes[:2], 300, healthy)
+	run("alternating-three-masters", env.T.Nodes[:3], 300, healthy)
+	// (3) the loading replica becomes healthy: within 12 s it serves reads
+	time.Sleep(2 * time.Second)
+	loadingNode.Loading = false
+	ok := false
+	for dl := time.Now().Add(12 * time.Second); time.Now().Before(dl) && !ok; {
+		time.Sleep(500 * time.Millisecond)
+		mu.Lock()
+		served = map[*Node]int{}
+		mu.Unlock()
+		cl, err := env.Dial()
+		must(err, "dial")
+		m := env.T.Nodes[2]
+		for i := 0; i < 60; i++ {
+			cl.Send(Req("GET", Key(m.Slots[0][0]+rng.Intn(100), newToken("ld"))))
+		}
+		cl.WaitReplies(60, 5*time.Second)
+		cl.Close()
+		mu.Lock()
+		ok = served[loadingNode] > 0
+		mu.Unlock()
+	}
+	c.Eval(1)
+	c.Distinct("special/replica-healthy-after-loading")
+	if !ok {
+		c.Violate(Violation{Class: "healthy-replica-never-used", Shape: "replica-healthy-after-loading",
+			Detail: "a replica that reported loading when first discovered stopped loading 12 s ago and still serves no reads"})
+	} else {
+		c.Count("runs_with_all_healthy_replicas_used", 1)
+	}
 }
 
 func addrOf(n *Node) string {
